@@ -774,6 +774,11 @@ class ConditionBinaryOp(ConditionLike):
         return null_condition_binary_check(*conditions) or super().__new__(cls)
 
     def __init__(self, *conditions):
+        if null_condition_binary_check(*conditions) is not None:
+            # `__new__` returned the non-null operand; if that operand is itself an
+            # instance of this class, Python calls `__init__` on it: leave it untouched.
+            return
+
         super().__init__()
 
         self.children = conditions
